@@ -123,6 +123,10 @@ func c11Inference(c *core.Ctx) {
 						if c.Tier != "thorough" && (outBody == "aa" || aaBase == 100) {
 							continue
 						}
+						for _, wrap := range []string{"", "operator", "operator+interval"} {
+						if wrap != "" && aaBase != -1 {
+							continue // the wrapped variants: the out rule reads its body through a temporal literal
+						}
 						// reference: least model
 						hp := hProgram{name: "p", base: []string{"es(100)", "en(1)"}}
 						if aaBase >= 0 {
@@ -153,6 +157,9 @@ func c11Inference(c *core.Ctx) {
 							cl := ak.zero("ast", "Clause")
 							cl.Fields["Head"] = atom(r.head, X)
 							ps := []ordabs.Value{atom(r.body, X)}
+							if r.head == "out" && wrap != "" {
+								ps[0] = ak.tl(atom(r.body, X), true, wrap == "operator+interval")
+							}
 							cl.Fields["Premises"] = &ordabs.Slice{Elems: &ps}
 							byHead[r.head] = append(byHead[r.head], cl)
 						}
@@ -212,6 +219,10 @@ func c11Inference(c *core.Ctx) {
 								base += fmt.Sprintf(" aa(%s).", map[bool]string{true: "\"s\"", false: "1"}[aaBase >= 100])
 							}
 							bad = fmt.Sprintf("the program [%s %s out(X) :- %s(X).] with out bound to %s (es: /string, en: /number) is accepted, but its least model holds %v (numbers >= 100 stand for strings): facts outside the declared bound", base, strings.Join(rtxt, " "), outBody, outBound, outside)
+							if wrap != "" {
+								bad += " (the out rule reads its body through a temporal literal with " + wrap + ")"
+							}
+						}
 						}
 					}
 				}
